@@ -10,6 +10,8 @@ attribute an observed mismatch to one specific catalogued finding (the
 default, empty set, is the OData semantics):
    'round-trunc-half'     round(x) = trunc(x + 0.5)              (SQLite dialect)
    'like-field-wildcards' %, _ in a non-literal pattern argument act as LIKE wildcards
+   'like-all-wildcards'   %, _ in any pattern argument act as LIKE wildcards  (SQLAlchemy backends)
+   'int-true-div'         Int div Int is true division                        (SQLAlchemy backends)
 """
 import datetime as dt
 import math
@@ -54,6 +56,8 @@ def lit_value(t):
         return parse_dt(t[1])
     if k == "Date":
         return dt.date.fromisoformat(t[1])
+    if k == "Time":
+        return dt.time.fromisoformat(t[1])
     raise KeyError(k)
 
 
@@ -87,7 +91,7 @@ def _cmp(op, a, b):
     raise KeyError(op)
 
 
-def _arith(op, a, b):
+def _arith(op, a, b, true_div=False):
     if a is UNDEF or b is UNDEF:
         return UNDEF
     if a is None or b is None:
@@ -103,7 +107,7 @@ def _arith(op, a, b):
     if op == "Div":
         if b == 0:
             return UNDEF
-        if isinstance(a, int) and isinstance(b, int):
+        if isinstance(a, int) and isinstance(b, int) and not true_div:
             q = abs(a) // abs(b)
             return q if (a >= 0) == (b >= 0) else -q
         return a / b
@@ -171,13 +175,14 @@ class Evaluator:
         if k == "Identifier":
             name = t[1]
             return [r[name] for r in rows]
-        if k in ("Null", "Integer", "Float", "Boolean", "String", "DateTime", "Date"):
+        if k in ("Null", "Integer", "Float", "Boolean", "String", "DateTime", "Date", "Time"):
             v = lit_value(t)
             return [v] * n
         if k == "BinOp":
             a, b = self.eval(t[2], rows, tk), self.eval(t[3], rows, tk)
             op = t[1][0]
-            return [_arith(op, x, y) for x, y in zip(a, b)]
+            td = "int-true-div" in self.mode
+            return [_arith(op, x, y, td) for x, y in zip(a, b)]
         if k == "Compare":
             op = t[1][0]
             if op == "In":
@@ -244,7 +249,7 @@ class Evaluator:
     def _like(self, s, p, lit, a0, a1, plain):
         if not (isinstance(s, str) and isinstance(p, str)):
             return UNDEF
-        if not lit and "like-field-wildcards" in self.mode:
+        if "like-all-wildcards" in self.mode or (not lit and "like-field-wildcards" in self.mode):
             return bool(_like_wild(p, a0, a1).match(s))
         return plain(s, p)
 
